@@ -16,7 +16,7 @@ from vlib.core import Stage, fail
 ID = "C16"
 MANIFEST = {
     "category": "fault_enumeration",
-    "text": "Generated fault injection with a differential oracle: deep AHBs x content evaluation results x a drawn non-empty set of nodes (groups, segments, free-text elements, entries of value pools) each receiving a structurally invalid expression (neutral-vs-requirement O/X mix or bare hint/format-constraint pair at any depth; under any indicator; alone, as a later modal-mark part, or hidden in a package; also every entry of one value pool at once). validate_deep_anwendungshandbuch of the faulted AHB must not raise InvalidExpressionError; compared with the run on the AHB where each injected expression is replaced by 'Kann': NotImplementedError in one iff in the other, same discriminators in the same order, every non-faulted node's result equal (value pools with a faulted entry included: the entry counts as selectable), every faulted group/segment/free-text node reported optional with the reason as hint - the message of the InvalidExpressionError that evaluating the injected expression on its own raises under the same content. A third of the cases validate the same faulted AHB a second time, in the same process, under a different content evaluation result.",
+    "text": "Generated fault injection with a differential oracle: deep AHBs x content evaluation results x a drawn non-empty set of nodes (groups, segments, free-text elements, entries of value pools) each receiving a structurally invalid expression (neutral-vs-requirement O/X mix or bare hint/format-constraint pair at any depth; under any indicator; alone, as a later modal-mark part, or hidden in a package; also every entry of one value pool at once). validate_deep_anwendungshandbuch of the faulted AHB must not raise InvalidExpressionError; compared with the run on the AHB where each injected expression is replaced by 'Kann': NotImplementedError in one iff in the other, same discriminators in the same order, every non-faulted node's result equal (value pools with a faulted entry included: the entry counts as selectable), every faulted group/segment/free-text node reported optional with the reason as hint - the message of the InvalidExpressionError that evaluating the injected expression on its own raises under the same content. A third of the cases validate the same faulted AHB a second time, in the same process, under a different content evaluation result. A fifth of the injected faults are invalid because of the evaluator's answer: a requirement constraint answered NEUTRAL next to a boolean operand in O / X.",
     "note": "Trusted: gen.g_dom_invalid / ref.validity (the injected expressions are invalid by the structural criterion of C06), attrs equality of results. Faults are sampled, not enumerated exhaustively: subsets of up to 5 nodes per tree. Process configuration by shard (vlib/sut.py; recorded in replay files): plain / parse caches preheated beyond their size / warnings attributed to ahbicht raised as errors / logging fully enabled with every record rendered; one event loop per process or a new one per call; five process time zones; the hash seed is the shard number; namesakes of ahbicht's marshmallow schema classes are registered.",
     "technique": "property-based fault injection with a differential oracle (faulted AHB vs the same AHB with 'Kann' at the faulted nodes)",
 }
@@ -199,8 +199,18 @@ def strategy(tier):
             kind, node, expr, index = slots[position]
             invalid = draw(gen.g_dom_invalid(max_atoms=4, pools=vtree.POOLS))
             text = gen.render(draw, invalid, redundant=False, top=False)
-            style = draw(st.sampled_from(["plain", "plain", "later-part", "package"]))
-            if style == "package":
+            style = draw(st.sampled_from(["plain", "plain", "later-part", "package", "neutral-answer"]))
+            if style == "neutral-answer":
+                # invalid because of what the evaluator answers: NEUTRAL is a documented outcome of a requirement constraint
+                # evaluator, and a neutral operand next to a boolean one in O / X "has no useful result" (key 17 is
+                # answered NEUTRAL, see below; nothing else uses it)
+                other = draw(st.sampled_from(vtree.RC))
+                pair = [f"[17]", f"[{other}]"]
+                if draw(st.booleans()):
+                    pair.reverse()
+                written = (f"{draw(gen.indicator_text(gen.MODAL_WORDS + gen.PREFIX_WORDS))} {pair[0]} "
+                           f"{draw(st.sampled_from(['O', 'X', 'o', '∨']))} {pair[1]} ")
+            elif style == "package":
                 key = f"{90 + len(tree['table'])}P"
                 tree["table"][key] = text
                 written = f"{draw(gen.indicator_text(gen.MODAL_WORDS + gen.PREFIX_WORDS))} [{key}] "
@@ -217,8 +227,11 @@ def strategy(tier):
                 node["expr"] = new
             else:
                 node["pool"][index]["expr"] = new
-        return {"tree": tree, "cer": draw(vtree.g_cer()), "soll": draw(st.booleans()), "hidden_in_package": hidden, "later_part": later,
-                "cer2": draw(vtree.g_cer()) if draw(st.sampled_from(range(3))) == 0 else None}
+        cer, cer2 = draw(vtree.g_cer()), (draw(vtree.g_cer()) if draw(st.sampled_from(range(3))) == 0 else None)
+        for data in (cer, cer2):
+            if data is not None:
+                data["rc"]["17"] = "N"
+        return {"tree": tree, "cer": cer, "soll": draw(st.booleans()), "hidden_in_package": hidden, "later_part": later, "cer2": cer2}
 
     return build()
 
